@@ -268,6 +268,8 @@ def configs(tier):
             if kind == 'psoga' or m == 2:
                 out.append({'name': 'pbest-shared-record-%s-m%d' % (kind, m), 'task': 'particle_best_shared',
                             'args': {'m': m, 'kind': kind}, 'weight': 4})
+        for m in ((4, 5) if kind == 'omopso' else (4,)):          # size thresholds: many objectives
+            out.append({'name': 'pbest-%s-m%d' % (kind, m), 'task': 'particle_best', 'args': {'m': m, 'kind': kind}, 'weight': 3 ** m})
         for dim in ((1, 2) if tier == 'quick' else (1, 2, 3)):
             for nlead in (1, 2):
                 out.append({'name': 'velocity-%s-d%d-l%d' % (kind, dim, nlead), 'task': 'velocity',
